@@ -8,6 +8,7 @@ package sim
 // Workers must run inside a Test function because testing/synctest needs a *testing.T.
 
 import (
+	"context"
 	"encoding/json"
 	"fmt"
 	"os"
@@ -402,6 +403,27 @@ func master() int {
 	var results []*workerResult
 	infra := 0
 	var dead, deadLogs []string
+	// A worker whose journal has not moved for 60 s is stuck in a way its own watchdog could not end (observed: a
+	// runaway loop in the code under test that starves timers and signals under GOMAXPROCS=1). Kill it; the run it
+	// was executing is then handled like any other worker death.
+	stopMon := make(chan struct{})
+	go func() {
+		for {
+			select {
+			case <-stopMon:
+				return
+			case <-time.After(5 * time.Second):
+			}
+			for _, pr := range procs {
+				if st, err := os.Stat(pr.out + ".journal"); err == nil && time.Since(st.ModTime()) > 60*time.Second {
+					if _, err := os.Stat(pr.out); err != nil && pr.cmd.Process != nil {
+						pr.cmd.Process.Kill()
+					}
+				}
+			}
+		}
+	}()
+	defer close(stopMon)
 	for w, pr := range procs {
 		werr := pr.cmd.Wait()
 		b, rerr := os.ReadFile(pr.out)
@@ -559,9 +581,14 @@ func master() int {
 				if p.Meta().Nondeterministic {
 					cpu = envOr("SIM_GOMAXPROCS", "8")
 				}
-				cmd := exec.Command(self, "-test.run", "^TestSim$", "-test.timeout", "0", "-test.cpu", cpu)
+				ctx, cancel := context.WithTimeout(context.Background(), 60*time.Second)
+				cmd := exec.CommandContext(ctx, self, "-test.run", "^TestSim$", "-test.timeout", "0", "-test.cpu", cpu)
 				cmd.Env = append(os.Environ(), "SIM_ROLE=replay", "SIM_FILE="+path, "GOMAXPROCS="+envOr("SIM_GOMAXPROCS", "2"))
 				ob, _ = cmd.CombinedOutput()
+				if ctx.Err() != nil && c.Replay.Class == "stuck" {
+					ob = append(ob, []byte("\n"+want+"\n")...) // it had to be killed: stuck indeed
+				}
+				cancel()
 			}
 			if p.Meta().Nondeterministic && !strings.Contains(string(ob), want+"\n") {
 				// sound oracle over recorded evidence: reported even though 10 re-executions did not show it again
@@ -731,9 +758,14 @@ func rerunDead(self, id, tier string, base uint64, where, verif, head string) st
 	var lastOut []byte
 	for k := 0; k < 2; k++ {
 		out := filepath.Join(verif, "bin", fmt.Sprintf("rerun-%s-%d.json", id, os.Getpid()))
-		cmd := exec.Command(self, "-test.run", "^TestSim$", "-test.timeout", "0", "-test.cpu", "1")
+		ctx, cancel := context.WithTimeout(context.Background(), 40*time.Second)
+		cmd := exec.CommandContext(ctx, self, "-test.run", "^TestSim$", "-test.timeout", "0", "-test.cpu", "1")
 		cmd.Env = append(os.Environ(), "SIM_ROLE=worker", "SIM_ONLY_PHASE="+f[0], "SIM_ONLY_INDEX="+f[1], "SIM_OUT="+out, "GOMAXPROCS=2")
 		ob, _ := cmd.CombinedOutput()
+		if ctx.Err() != nil {
+			ob = append(ob, []byte("\nWATCHDOG: the process running this one simulated execution had to be killed after 40 s (runaway loop that starves its own watchdog)\n")...)
+		}
+		cancel()
 		if strings.Contains(string(ob), "HARNESS-BUG") {
 			return ""
 		}
